@@ -97,6 +97,12 @@ def lineChanges (diff : Text → Text → List (Nat × Nat)) (f : File) : List L
 /-- target path normalisation in `line_changes_from_diff`: exactly one leading `b/` is removed -/
 def normaliseTarget (t : Text) : Text := (stripPrefix "b/".toList t).getD t
 
+/-- `HashMap<PathBuf, _>::insert`: keys are equal when their path components are (`x///` = `x`); an existing key
+    is kept and only its value replaced -/
+def insertFile (acc : List (Text × List LC)) (p : Text) (v : List LC) : List (Text × List LC) :=
+  if acc.any (fun e => pathEq e.1 p) then acc.map (fun e => if pathEq e.1 p then (e.1, v) else e)
+  else acc ++ [(p, v)]
+
 /-- `line_changes_from_diff`: later files with the same path replace earlier ones (`HashMap::insert`) -/
 def lineChangesFromDiff (diff : Text → Text → List (Nat × Nat)) (input : Text) :
     Except Unidiff.Err (List (Text × List LC)) :=
@@ -106,8 +112,7 @@ def lineChangesFromDiff (diff : Text → Text → List (Nat × Nat)) (input : Te
     .ok (files.foldl (fun acc f =>
       if f.isRemoved then acc
       else
-        let p := normaliseTarget f.target
-        acc.filter (fun e => e.1 ≠ p) ++ [(p, lineChanges diff f)]) [])
+        insertFile acc (normaliseTarget f.target) (lineChanges diff f)) [])
 
 /-- std `binary_search_by(..).is_ok()` over a list with comparator `f` -/
 def bsearchLoop {α} (xs : Array α) (f : α → Ordering) : Nat → Nat → Nat → Nat
